@@ -80,6 +80,7 @@ func runC12(c *Ctx) {
 	c12CommitReuse(c)
 	c12ExactNames(c)
 	c12NestedTag(c, "R3")
+	exportReplacesEveryPointer(c, "R5")
 	everythingIncludesTags(c, "R3")
 	// import cleans blobs through the same code as `git add`: what counts as already-a-pointer is decided there (C08)
 	{
